@@ -14,7 +14,7 @@ import sys
 sys.unraisablehook = lambda *args: None   # silence GC-time clean-up of abandoned coroutines
 
 import usim
-from usim import interval, delay, IntervalExceeded, eternity, Scope, until, time, Flag, Lock, instant, Concurrent, TaskCancelled, \
+from usim import collect, first, interval, delay, IntervalExceeded, eternity, Scope, until, time, Flag, Lock, instant, Concurrent, TaskCancelled, \
     TaskClosed, CancelTask, Queue, Channel, StreamClosed, Resources, Capacities, ResourcesUnavailable
 from usim._core.loop import Interrupt, Loop
 from usim._primitives.context import CancelScope, ScopeClosed
@@ -84,6 +84,8 @@ class World:
     # ------------------------------------------------------------ encodings
     def enc(self, err, ctx_task=0):
         """structural encoding of an exception, the same shape as the model's values"""
+        if isinstance(err, KeyErr) and err.args and isinstance(err.args[0], int) and err.args[0] >= 1000:
+            return ['exc', err.args[0], 'Key']
         if isinstance(err, (KeyErr, IndexErr)) or (type(err) is AssertionError and err.args
                                                      and isinstance(err.args[0], int)):
             cls = 'Key' if isinstance(err, KeyErr) else 'Index' if isinstance(err, IndexErr) else 'Assert'
@@ -409,6 +411,50 @@ class Puppet:
                 pass
         self.emit('p', op='cstop', c=op['c'])
 
+    # ------------------------------------------------------------ collect / first
+    async def work(self, i, dur, fail):
+        self.emit('ws', w=i)
+        if dur > 0:
+            await (time + dur)
+        self.emit('we', w=i)
+        if fail:
+            raise KeyErr(1000 + i)
+        return 100 + i
+
+    async def op_flow(self, op):
+        acts, k, cons = op['acts'], op['k'], op['cons']
+        workers = [self.work(i + 1, a['d'], a['f']) for i, a in enumerate(acts)]
+        self.emit('b', op='flow', fop=op['fop'], acts=acts, k=k, cons=cons)
+        try:
+            if op['fop'] == 'collect':
+                res = await collect(*workers)
+                self.emit('r', op='flow', v=res)
+            else:
+                n = 0
+                agen = first(*workers, count=None if k == 99 else k)
+                try:
+                    async for x in agen:
+                        self.emit('y', v=x)
+                        n += 1
+                        if cons == 'slow':
+                            await (time + 1)
+                        if cons == 'break1' and n == 1:
+                            break
+                finally:
+                    try:
+                        await agen.aclose()      # the documented way to abandon an async iterator early
+                    except GeneratorExit:
+                        pass
+                self.emit('r', op='flow', v=[])
+        except (Exception, Concurrent) as err:
+            self.emit('x', op='flow', exc=self.w.enc(err))
+        except BaseException as err:
+            self.emit('u', op='flow', exc=self.w.enc(err))
+            raise
+        finally:
+            for wk in workers:
+                wk.close()
+
     # ------------------------------------------------------------ tickers
     async def op_tick(self, op):
         key = (self.a, 'tick', op['i'])
@@ -423,6 +469,8 @@ class Puppet:
                 self.w.iters.pop(key, None)     # the generator is finished
                 raise
         args = {'i': op['i'], 'kind': op['kind'], 'p': op['p']}
+        if op['p'] < 0:
+            args['neg'] = True
         # expectation with the same float expressions as the ticker (used for non-integer dates only)
         now = time.now
         last = self.w.ticks.get(key, now)
